@@ -632,6 +632,13 @@ def bk7(p, res):
             if nm.startswith("_mm") and not re.search(r"load|store|set1|setzero|cvtsi|castsi|undefined|stream", nm):
                 out.add(nm)
         return out
+    def helpers(f):
+        out = {}
+        for bi, t in f.calls():
+            d = f.callee_def(t) or {}
+            if d.get("u", "").startswith("poulpy_cpu_avx") and re.search(r"reduce|get_digit|get_carry", d.get("n", "")):
+                out[d["n"]] = out.get(d["n"], 0) + 1
+        return out
     n = 0
     for nm, f in sorted(fns.items()):
         m = re.match(r"(.*)_assign(_avx.*)$", nm)
@@ -643,6 +650,14 @@ def bk7(p, res):
         # a const-generic twin (`<const OVERWRITE: bool>`) also accumulates into its result
         extra = {"_mm256_add_epi64", "_mm256_add_pd"} if twin.generics else set()
         only_a, only_b = (a - b), (b - a) - extra
+        # crate-local helpers (lazy reductions, digit / carry helpers): the two forms apply each of them equally often
+        ha, hb = helpers(f), helpers(twin)
+        if not (only_a or only_b) and ha != hb and not twin.generics:
+            diff = sorted(k for k in set(ha) | set(hb) if ha.get(k, 0) != hb.get(k, 0))
+            res.bad("BK-7", f.pretty, "helper-count-differs:%s" % ",".join(diff),
+                    "%s applies %s, its out-of-place twin %s applies %s: one of the two forms skips a step (a lazy reduction, a digit / carry split) that the other - and the reference "
+                    "kernel both stand for - performs on every operand" % (f.pretty, {k: ha.get(k, 0) for k in diff}, twin.name, {k: hb.get(k, 0) for k in diff}), site=f.where())
+            continue
         if only_a or only_b:
             res.bad("BK-7", f.pretty, "intrinsic-set-differs:%s" % ",".join(sorted(only_a | only_b)),
                     "%s and its out-of-place twin %s do not apply the same vector operations: %s only in the in-place form, %s only in the out-of-place form - the two forms (and the reference kernel both stand for) compute different values on some lanes"
